@@ -14,13 +14,16 @@ THEOREMS = ["constants_consistent", "sha256_is_256_bit", "convert_is_identity", 
             "sort_sorted", "sort_perm", "sort_prefix", "sort_returns_n_nearest", "sort_by_address_is_by_key", "sort_error_iff",
             "returns_requested_number_or_error_refuted", "returns_requested_number_or_error_outside_known",
             "known_short_list_exact", "range_filter_exact", "fetcher_range_filter_exact",
-            "fetcher_order_closest_first", "store_distance_index_exact", "closest_peers_spec",
+            "fetcher_order_closest_first", "fetch_schedule_closest_first", "fetch_acceptor_is_spec",
+            "fetch_history_agreement_sound", "store_distance_index_exact", "closest_peers_spec",
             "candidates_spec"]
 RULE = ("addresses of all six kinds (peer bytes incl. non-PeerId byte strings, chunk, register, scratchpad, "
         "transaction, raw record key) and the record-key form of each; peers are sha2-256 and identity multihash "
         "PeerIds incl. duplicates, 0-40 per case with boundary sizes 0,1,4,5,6; requested counts 0..|peers|+2; "
         "ranges 0, exact distance of a chosen element -1/0/+1, 2^256-1, random; routing tables of 0-40 peers; "
-        "fetcher adverts of 2-18 distinct keys. A case is non-trivial/distinct by (op, outcome class, size class, "
+        "fetcher adverts of 2-18 distinct keys; fetcher scheduling histories (2-3 holders with overlapping adverts of "
+        "6-70 (key,type)s incl. one key under two types, backlog above MAX_PARALLEL_FETCH, completions freeing slots "
+        "closest-first or at random, early completions, plain scheduling calls, optional range). A case is non-trivial/distinct by (op, outcome class, size class, "
         "address kind, boundary class of the range/count)")
 ASSUMPTIONS = [
     "SHA-256 is computed three times independently (Rust sha2 inside libp2p, Gallina V.lib.Sha256, Python hashlib) "
@@ -32,8 +35,11 @@ ASSUMPTIONS = [
     "uint's decimal Debug of KBucketDistance and ruint's from_str are modelled (third-party; validated by the "
     "correspondence); KBucketDistance values other than real digest XORs cannot be constructed from outside libp2p, "
     "so convert_distance_to_u256 is executed only on those (all of 2^256 is covered by convert_is_identity)",
-    "fetcher cases avoid the single-key fast path and the MAX_PARALLEL_FETCH cap (C08's subject); store cases use "
-    "a fresh store per case",
+    "one-shot fetcher cases avoid the single-key fast path and the MAX_PARALLEL_FETCH cap; the scheduling histories "
+    "(fetch_sched) exercise the cap with several holders, and skip only adverts with fewer than two new keys (the "
+    "single-key fast path is C08's subject); hash-map iteration order of the backlog is nondeterministic, so the "
+    "scheduler is judged by an acceptor (sched_ok), which the deterministic model is proved to satisfy for every order; "
+    "store cases use a fresh store per case",
 ]
 
 # ------------------------------------------------------------------------------------------ helpers
@@ -244,6 +250,10 @@ def gen(ctx, binary):
         me = rng.choice(peers)
         rg = a_range({"t": "peerid", "b": me}, [bytes.fromhex(k) for k in keys])
         cases.append({"op": "store_count", "n": i, "self": me, "keys": keys, "range": str(rg)})
+    # fetch scheduling histories: 2-3 holders advertising overlapping key sets, a backlog larger than the
+    # free capacity, fetches in flight, completions that free a few slots, plain scheduling calls
+    for i in range(36 * scale):
+        cases.append(gen_fetch_sched(rng, peers, i))
     # SHA-256 padding boundaries through arbitrary-length raw keys / peer byte strings
     for ln in [0, 1, 54, 55, 56, 57, 63, 64, 65, 118, 119, 120, 121, 128, 200]:
         cases.append({"op": "addr", "a": {"t": rng.choice(["key", "peer", "keyfrom"]), "b": rb(rng, ln).hex()}})
@@ -264,6 +274,102 @@ def gen(ctx, binary):
     for perm in itertools.permutations(four):
         cases.append({"op": "closest", "peers": [list(x) for x in perm], "a": t, "num": rng.choice([2, 3, 4]), "range": None})
     return cases
+
+
+def gen_fetch_sched(rng, peers, i):
+    me = rng.choice(peers)
+    hs = H(bytes.fromhex(me))
+    nkeys = rng.choice([6, 15, 22, 30, 45, 60, 60, 70])
+    pool = []
+    for _ in range(nkeys):
+        k = rb(rng, rng.choice([32, 32, 32, 32, 50, 8])).hex()
+        t = rng.choice([0, 0, 0, 0, 0, 1, 5])
+        pool.append([k, t])
+    if nkeys >= 15 and rng.random() < 0.4:      # the same key under a second record type
+        for _ in range(3):
+            k = rng.choice(pool)[0]
+            pool.append([k, rng.choice([1, 5, 6])])
+    pool = [list(x) for x in {(k, t) for k, t in pool}]
+    by_dist = sorted(pool, key=lambda kt: hs ^ H(bytes.fromhex(kt[0])))
+    holders = rng.sample(peers[:70], 3)
+    steps = []
+    rg = None
+    if rng.random() < 0.25:
+        d = hs ^ H(bytes.fromhex(rng.choice(pool)[0]))
+        rg = min(max(d + rng.choice([-1, 0, 1]), 0), U256 - 1)
+    elif rng.random() < 0.1:
+        rg = U256 - 1
+    advertised = {h: set() for h in holders}
+
+    def advert(h, frac):
+        ks = [kt for kt in pool if (kt[0], kt[1]) not in advertised[h] and rng.random() < frac]
+        if len(ks) < 2:
+            return
+        rng.shuffle(ks)
+        for k, t in ks:
+            advertised[h].add((k, t))
+        steps.append({"s": "add", "holder": h, "keys": ks})
+
+    advert(holders[0], rng.choice([1.0, 1.0, 0.8, 0.5]))
+    advert(holders[1], rng.choice([1.0, 1.0, 0.7, 0.3]))
+    if rng.random() < 0.5:
+        advert(holders[2], rng.choice([1.0, 0.5]))
+    done = 0
+    for _ in range(rng.choice([3, 6, 10, 14])):
+        r = rng.random()
+        if r < 0.6 and by_dist:      # a fetch completes: mostly the closest outstanding ones, as in a real run
+            if rng.random() < 0.7 and done < len(by_dist):
+                k, t = by_dist[done]
+                done += 1
+            else:
+                k, t = rng.choice(pool)
+            steps.append({"s": "put", "key": k, "type": t})
+        elif r < 0.75:
+            k, t = rng.choice(pool)
+            steps.append({"s": "early", "key": k, "type": t})
+        elif r < 0.9:
+            steps.append({"s": "next"})
+        else:
+            advert(rng.choice(holders), 0.6)
+    return {"op": "fetch_sched", "self": me, "range": None if rg is None else str(rg), "steps": steps}
+
+
+def fetch_pre(c, st, step, hs):
+    """the backlog and the in-flight set the scheduling call inside this operation starts from"""
+    P = [tuple(e) for e in step["pre_p"]]
+    O = [tuple(e) for e in step["pre_o"]]
+    if st["s"] == "add":
+        new = []
+        for k, t in st["keys"]:
+            e = (k, t, st["holder"])
+            if e in P or e in new:
+                continue
+            new.append(e)
+        if len(new) < 2:
+            return None          # single-key fast path: not this property's subject
+        if c["range"] is not None:
+            new = [e for e in new if (hs ^ H(bytes.fromhex(e[0]))) <= int(c["range"])]
+        P = P + new
+    elif st["s"] == "put":
+        P = [e for e in P if not (e[0] == st["key"] and e[1] == st["type"])]
+        O = [e for e in O if e[0] != st["key"]]
+    elif st["s"] == "early":
+        P = [e for e in P if not (e[0] == st["key"] and e[1] == st["type"])]
+        O = [e for e in O if not (e[0] == st["key"] and e[1] == st["type"])]
+    return P, O
+
+
+def fetch_picked(step, O1):
+    """entries that went in flight during the step, in hand-out order (None if they do not match `out`)"""
+    new = [tuple(e) for e in step["post_o"] if tuple(e) not in O1]
+    picked = []
+    for h, k in step["out"]:
+        m = [e for e in new if e[0] == k and e[2] == h]
+        if not m:
+            return None
+        picked.append(m[0])
+        new.remove(m[0])
+    return None if new else picked
 
 
 # ------------------------------------------------------------------------------------------ oracle
@@ -414,6 +520,34 @@ def oracle(c, o):
         if o["out"] != want or not o["holders_ok"]:
             v.append(("fetch-range", "fetcher hands out %d keys, XOR metric says %d in range (closest first)" % (len(o["out"]), len(want))))
         return v
+    if op == "fetch_sched":
+        hs = H(bytes.fromhex(c["self"]))
+        maxp = o["max_parallel"]
+        for i, (st, step) in enumerate(zip(c["steps"], o["steps"])):
+            pre = fetch_pre(c, st, step, hs)
+            if pre is None:
+                continue
+            P1, O1 = pre
+            inflight = {(e[0], e[1]) for e in O1}
+            cap = max(maxp - len(inflight), 0)
+            cands = {(e[0], e[1]) for e in P1} - inflight
+            want = sorted(hs ^ H(bytes.fromhex(k)) for k, _t in cands)[:cap]
+            got = [hs ^ H(bytes.fromhex(k)) for _h, k in step["out"]]
+            if got != want:
+                v.append(("fetch-order", "step %d (%s): handed out keys at distances %s..., but the closest pending "
+                          "(key,type)s not in flight are at %s... (%d pending, %d in flight, capacity %d)"
+                          % (i, st["s"], [str(x)[:12] for x in got[:3]], [str(x)[:12] for x in want[:3]],
+                             len(P1), len(inflight), cap)))
+                continue
+            picked = fetch_picked(step, O1)
+            if picked is None or any(e not in P1 or (e[0], e[1]) in inflight for e in picked) or \
+                    len({(e[0], e[1]) for e in picked}) != len(picked):
+                v.append(("fetch-state", "step %d (%s): handed-out entries are not distinct pending (key,type)s going in flight" % (i, st["s"])))
+                continue
+            if sorted(map(tuple, step["post_p"])) != sorted(e for e in P1 if e not in picked) or \
+                    sorted(map(tuple, step["post_o"])) != sorted(O1 + picked):
+                v.append(("fetch-state", "step %d (%s): maps after the step are not (backlog - picked, in flight + picked)" % (i, st["s"])))
+        return v
     if op == "store_count":
         hs = H(bytes.fromhex(c["self"]))
         want = len({k for k in c["keys"] if (hs ^ H(bytes.fromhex(k))) < int(c["range"])})
@@ -464,6 +598,43 @@ def model_term(c, o):
         keys = clist([caddr(a, b) for a, b in zip(c["keys"], o["keys_bytes"])])
         return "agree_fetcher %s %s %s %s %s" % (S, cbytes(c["self"]), copt(c["range"], lambda r: cN(int(r))),
                                                 keys, cpeers(o["out"]))
+    if op == "fetch_sched":
+        hs = H(bytes.fromhex(c["self"]))
+        # byte strings are written once (tables ks / hl) and referred to by index: the recorded maps
+        # repeat the same keys and holders many times
+        kidx, hidx = {}, {}
+
+        def ck(k):
+            return "(k %d%%nat)" % kidx.setdefault(k, len(kidx))
+
+        def cent(e):
+            return "(e %d%%nat %s %d%%nat)" % (kidx.setdefault(e[0], len(kidx)), cN(e[1]), hidx.setdefault(e[2], len(hidx)))
+
+        def cents(l):
+            return clist([cent(e) for e in l])
+        recs = []
+        for st, step in zip(c["steps"], o["steps"]):
+            pre = fetch_pre(c, st, step, hs)
+            if pre is None:
+                continue
+            picked = fetch_picked(step, pre[1])
+            if picked is None:
+                return "false"
+            if st["s"] == "add":
+                cst = "(FAdd (h %d%%nat) %s)" % (hidx.setdefault(st["holder"], len(hidx)),
+                                                 clist(["(%s, %s)" % (ck(k), cN(t)) for k, t in st["keys"]]))
+            elif st["s"] in ("put", "early"):
+                cst = "(%s %s %s)" % ("FPut" if st["s"] == "put" else "FEarly", ck(st["key"]), cN(st["type"]))
+            else:
+                cst = "FNext"
+            recs.append("(%s, (%s, %s), %s, (%s, %s))" % (cst, cents(step["pre_p"]), cents(step["pre_o"]), cents(picked),
+                                                         cents(step["post_p"]), cents(step["post_o"])))
+        ks = sorted(kidx, key=kidx.get)
+        hl = sorted(hidx, key=hidx.get)
+        return ("(let ks := %s in let hl := %s in let k := fun i => nth i ks [] in let h := fun i => nth i hl [] in "
+                "let e := fun i t j => (k i, t, h j) in agree_fetch_sched %s %s %s %s ks %s)" % (
+                    cpeers(ks), cpeers(hl), S, cbytes(c["self"]), cN(o["max_parallel"]),
+                    copt(c["range"], lambda r: cN(int(r))), clist(recs)))
     if op == "store_count":
         return "agree_store_count %s %s %s %s %s" % (S, cbytes(c["self"]), cpeers(c["keys"]), cN(int(c["range"])), cN(o["n"]))
     return "false"
@@ -493,6 +664,8 @@ def show(c, o):
     if op == "fetcher":
         keys = clist([caddr(a, b) for a, b in zip(c["keys"], o["keys_bytes"])])
         return "fetcher_add_keys %s %s %s %s" % (S, cbytes(c["self"]), copt(c["range"], lambda r: cN(int(r))), keys)
+    if op == "fetch_sched":
+        return "tt"
     if op == "store_count":
         return "records_within_distance_range %s %s %s %s" % (S, cbytes(c["self"]), cpeers(c["keys"]), cN(int(c["range"])))
     return "tt"
@@ -522,6 +695,10 @@ def nontrivial(c, o):
         return (op, c["range"] is None, size_class(len(o["inserted"])), len(o["out"]), c["a"]["t"])
     if op == "fetcher":
         return (op, c["range"] is None, len(c["keys"]), len(o["out"]))
+    if op == "fetch_sched":
+        sig = tuple((st["s"], min(len(sp["pre_p"]), 40) // 10, len(sp["pre_o"]), len(sp["out"]))
+                    for st, sp in zip(c["steps"], o["steps"]))
+        return (op, c["range"] is None, sig)
     if op == "store_count":
         return (op, len(c["keys"]), o["n"])
     return (op,)
@@ -541,7 +718,9 @@ def run(ctx):
     binary = ctx.cargo_build("c11")
     corpus = ctx.corpus()
     resolve(ctx, binary, corpus)
-    cases = corpus + ([] if ctx.replay or binary is None else gen(ctx, binary))
+    generated = [] if ctx.replay or binary is None else gen(ctx, binary)
+    ctx.rng.shuffle(generated)      # spread the expensive kinds (scheduling histories, 40-peer sorts) over the coqc shards
+    cases = corpus + generated
     relation = ("NetworkAddress::distance / convert_distance_to_u256 / sort_peers_by_* / get_peers_in_range / "
                 "calculate_get_closest_peers / get_replicate_candidates / fetcher+store range filters == "
                 "Closeness.* with H := Sha256.sha256")
